@@ -31,6 +31,14 @@ def make(rng, S):
         flat = gen.vals_q(rng, n * L, rng.choice(["int", "dyadic", "rational"]))
         P = xs[-1] - xs[0]
         base = [xs[0], xs[-1], xs[0] + P * Fr(1, 2 ** 40), xs[-1] - P * Fr(1, 2 ** 40), xs[1], xs[0] + P * Fr(rng.randint(1, 99), 100)]
+    elif S == "G":
+        # f32 elements (seed C07-r9m1: a wrap that rounds the period count with a constant only exact for f64)
+        r32 = vlib.f32_round
+        a, h = r32(rng.randint(-40, 40) / 4.0), r32(rng.choice([0.25, 0.5, 1.0, 1.5, 3.0]))
+        xs = [r32(a + i * h) for i in range(n)]
+        flat = [r32(rng.uniform(-3, 3)) for _ in range(n * L)]
+        P = r32(xs[-1] - xs[0])
+        base = [xs[0], xs[-1], vlib.next_up32(xs[0]), vlib.next_down32(xs[-1]), xs[1], r32(rng.uniform(xs[0], xs[-1]))]
     else:
         xs = gen.axis_f(rng, n, rng.choice(["unit", "uniform", "random"]))
         flat = [rng.uniform(-3, 3) for _ in range(n * L)]
@@ -43,16 +51,18 @@ def make(rng, S):
 def generate(rng, tier):
     cases = []
     for _ in range(gen.N(tier, 120, 3000)):
-        S = "Q" if rng.random() < 0.8 else "F"
+        S = rng.choice(["Q"] * 15 + ["F"] * 3 + ["G"] * 2)
         shape, xs, flat, P, base, L = make(rng, S)
-        ks = [0] + (KS if S == "Q" else [1, -1, 2, -7, 1000])
+        ks = [0] + (KS if S == "Q" else [1, -1, 2, -7, 1000] if S == "F" else [1, -1, 2, -3, 50])
         qs = [b + k * P for b in base for k in ks]
+        if S == "G":
+            qs = [vlib.f32_round(q) for q in qs]
         dtag, qtag = gen.pick_dims(rng, len(shape), 1)
         cases.append({"line": i1_line(S, xs, shape, flat, ("spl", True, "per"), e_array(S, [len(qs)], qs, qtag=qtag), dtag=dtag,
                                       dlay=rng.choice(gen.LAYS_ND)),
                       "meta": {"S": S, "nb": len(base), "nk": len(ks), "L": L, "first": flat[:L], "P": P, "ks": ks, "ext": True,
-                               "scale": max(abs(v) for v in flat) + 1.0 if S == "F" else None,
-                               "hmin": min(b - a for a, b in zip(xs, xs[1:])) if S == "F" else None, "xs": xs}})
+                               "scale": max(abs(v) for v in flat) + 1.0 if S != "Q" else None,
+                               "hmin": min(b - a for a, b in zip(xs, xs[1:])) if S != "Q" else None, "xs": xs}})
         if S == "F" and rng.random() < 0.6:
             # far family: axis starting at 0 (so x - x0 is exact) and queries of huge magnitude; the wrapped argument fmod(x, P) is
             # exact, so S(x) must equal S(fmod(x, P)) bit for bit
@@ -117,7 +127,8 @@ def oracle(case, res):
             k = abs(m["ks"][j])
             # error of the wrapped argument ~ k ulps of the query magnitude; derivative bounded by ~ 20*scale/hmin
             xmag = max(abs(x) for x in m["xs"]) + k * P
-            tol = (20 * m["scale"] / m["hmin"]) * (k + 4) * xmag * 2.0 ** -52 + 1e-9 * m["scale"]
+            eps = 2.0 ** -52 if m["S"] == "F" else 2.0 ** -23
+            tol = (20 * m["scale"] / m["hmin"]) * (k + 4) * xmag * eps + (1e-9 if m["S"] == "F" else 1e-4) * m["scale"]
             got = v[(b * nk + j) * L:(b * nk + j + 1) * L]
             for g, r in zip(got, ref):
                 if not math.isfinite(g) or abs(g - r) > tol:
